@@ -30,6 +30,10 @@ import re
 import os
 
 
+def rs_norm(x):
+    return ' '.join(x.split())
+
+
 class SpecError(Exception):
     pass
 
@@ -122,6 +126,7 @@ class Unit:
         self.rewrites = []
         self.path = None
         self.noderive = False
+        self.implspec = {}
 
     def fns(self):
         return [it[1] for it in self.items if it[0] == 'fn']
@@ -179,6 +184,14 @@ def parse(path, include_dir):
                     i += 1
                 i += 1
                 u.items.append(('lemma', p[0], p[1:], block))
+                continue
+            if d == '@implspec':
+                block = []
+                while i < len(lines) and lines[i].rstrip() != '@end':
+                    block.append(lines[i])
+                    i += 1
+                i += 1
+                u.implspec[rs_norm(rest)] = block
                 continue
             if d == '@noderive':
                 u.noderive = True
